@@ -79,6 +79,61 @@ theorem C15_body_complete (fmt : Int → Str) (ds : Dataset) (hds : ds.WF) (path
   · simp at h
   · simp at h
 
+/-! ### histories: several datasets in one process -/
+
+/-- **The answer depends only on the dataset and the request, not on what was served before**: in
+    every history of requests served by a process that holds any number of datasets, the answer to
+    the k-th request is the answer the same request gets as the first request of that process — and
+    that is the answer of the handler of the dataset it names, alone (`handle`, the per-request
+    model all other theorems are about) -/
+theorem C15_history_independent (fmt : Int → Str) (p : Proc) (reqs : List Req) (k : Nat) (r : Req)
+    (hk : reqs[k]? = some r) :
+    (run fmt p reqs)[k]? = some (serve fmt p r).1 ∧
+    (∀ h, p.handlers.find? (·.1 = r.target) = some h →
+      (run fmt p reqs)[k]? = some (some (handle fmt h.2 r.path r.query)) ∧
+      (serve fmt ⟨[h]⟩ r).1 = some (handle fmt h.2 r.path r.query)) := by
+  have hp : ∀ (p : Proc) (r : Req), (serve fmt p r).2 = p := by
+    intro p r; unfold serve; split <;> rfl
+  have main : ∀ (reqs : List Req) (k : Nat), reqs[k]? = some r → (run fmt p reqs)[k]? = some (serve fmt p r).1 := by
+    intro reqs
+    induction reqs with
+    | nil => intro k hk; simp at hk
+    | cons r0 rs ih =>
+      intro k hk
+      cases k with
+      | zero => simp at hk; subst hk; simp [run]
+      | succ k => simp at hk; simp [run, hp, ih k hk]
+  refine ⟨main reqs k hk, ?_⟩
+  intro h hh
+  have h1 : (serve fmt p r).1 = some (handle fmt h.2 r.path r.query) := by simp [serve, hh]
+  refine ⟨by rw [main reqs k hk, h1], ?_⟩
+  have ht : h.1 = r.target := by simpa using List.find?_some hh
+  simp [serve, ht]
+
+/-- **Every answer of every history is complete**: when all datasets of the process are well formed,
+    no request of any history lets an exception escape, and every 200 body — of the first dataset
+    served or of one served after any number of others — can be read to its end -/
+theorem C15_history_complete (fmt : Int → Str) (p : Proc) (hp : ∀ h ∈ p.handlers, h.2.WF)
+    (reqs : List Req) (o : Outcome) (ho : some o ∈ run fmt p reqs) :
+    (∀ e, o ≠ .escaped e) ∧ ∀ k body, o = .ok k body → ∃ text, body = .complete text := by
+  have hs : ∀ (p : Proc) (r : Req), (serve fmt p r).2 = p := by
+    intro p r; unfold serve; split <;> rfl
+  induction reqs with
+  | nil => simp [run] at ho
+  | cons r rs ih =>
+    simp only [run, hs, List.mem_cons] at ho
+    rcases ho with ho | ho
+    · unfold serve at ho
+      split at ho
+      · simp at ho
+      · rename_i h hh
+        simp only [Option.some.injEq] at ho
+        subst ho
+        have hw := hp h (List.mem_of_find?_eq_some hh)
+        exact ⟨C15_contained fmt h.2 r.path r.query,
+          fun k body hb => C15_body_complete fmt h.2 hw r.path r.query k body hb⟩
+    · exact ih ho
+
 /-- the constrained dataset of every request is well formed when the source is (the lemma the
     completeness theorem rests on, for every projection list and selection list) -/
 theorem C15_constrain_wf (ds cds : Dataset) (proj : List ProjItem) (sel : List Str) (hds : ds.WF)
@@ -249,7 +304,32 @@ example : handle intText dsA (cs!"/d.dods") (cs!"a[0:0:2]") = .errdoc (-1) := by
 example : handle intText dsA (cs!"/d.dods") (cs!"a[2:1]") = .errdoc (-1) := by decide +kernel
 example : handle intText dsA (cs!"/d.dods") (cs!"a[1],a[1]") = .errdoc (-1) := by decide +kernel
 example : handle intText dsA (cs!"/d.dods") (cs!"a[1:20]")
-    = .ok .dods (.complete (cs!"Dataset {\n    Int32 a[a = 2];\n} d;\nData:\n6 7")) := by decide +kernel
+    = .ok .dods (.complete (cs!"Dataset {\n    Int32 a[a = 2];\n} d;\nData:\n" ++
+        bytesStr [0, 0, 0, 2, 0, 0, 0, 2, 0, 0, 0, 6, 0, 0, 0, 7])) := by decide +kernel
 example : validSl 3 ⟨some 1, some 21, some 1⟩ = true ∧ validSl 3 ⟨some 3, some 4, some 1⟩ = false := by decide
+
+/-- two datasets of one process that share every name and id (`d`, `s`, `s.i`) and differ in the type of
+    the column and in the number of records, asked alternately -/
+def procAB : Proc := ⟨[
+  (cs!"h0", ⟨cs!"d", [.seq cs!"s" [(cs!"i", cs!"Int32")] [[5], [6]]]⟩),
+  (cs!"h1", ⟨cs!"d", [.seq cs!"s" [(cs!"i", cs!"String")] [[.str cs!"ab"]]]⟩)]⟩
+
+example : ∀ h ∈ procAB.handlers, h.2.WF := by
+  intro h hh
+  simp only [procAB, List.mem_cons, List.mem_nil_iff, or_false] at hh
+  rcases hh with rfl | rfl <;> intro v hv <;> simp at hv <;> subst hv <;> intro r hr <;> simp at hr
+  · rcases hr with rfl | rfl <;> rfl
+  · subst hr; rfl
+
+example : run intText procAB [⟨cs!"h0", cs!"/d.dods", cs!"s.i"⟩, ⟨cs!"h1", cs!"/d.dods", cs!"s.i"⟩,
+                              ⟨cs!"h0", cs!"/d.ascii", cs!"s.i&s.i>5"⟩, ⟨cs!"h2", cs!"/d.dds", []⟩, ⟨cs!"h1", cs!"/d.dods", cs!"s.j"⟩]
+    = [some (.ok .dods (.complete (cs!"Dataset {\n    Sequence {\n        Int32 i;\n    } s;\n} d;\nData:\n" ++
+          bytesStr [0x5a,0,0,0, 0,0,0,5, 0x5a,0,0,0, 0,0,0,6, 0xa5,0,0,0]))),
+       some (.ok .dods (.complete (cs!"Dataset {\n    Sequence {\n        String i;\n    } s;\n} d;\nData:\n" ++
+          bytesStr [0x5a,0,0,0, 0,0,0,2, 0x61,0x62,0,0, 0xa5,0,0,0]))),
+       some (.ok .ascii (.complete (cs!"Dataset {\n    Sequence {\n        Int32 i;\n    } s;\n} d;\n" ++ dashes ++ cs!"s.i\n6\n\n"))),
+       none,
+       some (.errdoc (-1))] := by
+  decide +kernel
 
 end Pydap.C15
